@@ -1110,7 +1110,17 @@ func (s *sim) script() {
 	if !s.newStream(s.drawDelta()) {
 		return
 	}
-	s.strictOnly = s.cur
+	// (false alarm fixed: after a corrupted or made-up frame with a well-formed header has reached the
+	// receiver, its reassembly state may already hold a list for the stream id the tail stream is
+	// going to get - stream ids are consecutive, one flipped bit turns an id into its neighbour - and
+	// the tail's first frames are then "too old". The statement speaks of loss, duplication and
+	// reordering, not of corruption, so in that case the tail is only run, not judged strictly.)
+	strictTail := !(s.mode == modeCorrupt && s.anyTaint)
+	if strictTail {
+		s.strictOnly = s.cur
+	} else {
+		r.Probe("tail-after-corruption-not-judged")
+	}
 	n := r.Range("tail-packets", 3, 14)
 	for k := 0; k < n && !r.Failed(); k++ {
 		if !s.writePacket() {
@@ -1127,7 +1137,9 @@ func (s *sim) script() {
 	if !s.drainAll(false) {
 		return
 	}
-	s.checkComplete(s.strs[s.strictOnly])
+	if strictTail {
+		s.checkComplete(s.strs[s.strictOnly])
+	}
 }
 
 // shutdown ends the goroutines of both gateways so that the bubble can finish, returning every
